@@ -8,7 +8,7 @@ import zipfile
 from harness.common import enc, enc_ints, enc_list
 
 ID = "C06"
-LEAN_MODULES = ["PptxModel.Props.C06"]
+LEAN_MODULES = ["PptxModel.Props.C06", "PptxModel.Props.C06L"]
 RULE = (
     "shape ids: slides pre-populated with seeded id populations (gaps, ids up to 2^31, duplicates, non-numeric @id on "
     "a:fld) then seeded addition sequences of every shape kind at slide level, inside nested groups (to depth 3), group "
@@ -410,6 +410,43 @@ def run_e2e(ctx, rng, png):
             ctx.fail("lookup-by-id-unstable", f"shape {shid} on slide {sid} no longer designates text {t!r}", {"kind": "e2e"})
 
 
+R_ID = "{http://schemas.openxmlformats.org/officeDocument/2006/relationships}id"
+
+
+class LinkState:
+    """a part as `Model/Links` sees it: relationships in insertion order, the r:id references of its XML by holder"""
+
+    def __init__(self):
+        self.tg, self.hold, self.keep = {}, {}, []
+
+    def target(self, rel):
+        t = rel.target_ref if rel.is_external else str(rel.target_part.partname) + "#%d" % id(rel.target_part)
+        if not rel.is_external:
+            self.keep.append(rel.target_part)
+        rt = self.tg.setdefault(("rt", rel.reltype), len(self.tg))
+        return "%d.%d.%d" % (rt, 1 if rel.is_external else 0, self.tg.setdefault(("t", rel.reltype, rel.is_external, t), len(self.tg)))
+
+    def target_of(self, reltype, ext, t):
+        rt = self.tg.setdefault(("rt", reltype), len(self.tg))
+        return "%d.%d.%d" % (rt, 1 if ext else 0, self.tg.setdefault(("t", reltype, ext, t), len(self.tg)))
+
+    def holder(self, el):
+        """the element that owns the link: the parent of a:hlinkClick, else the element carrying r:id itself"""
+        owner = el.getparent() if el.tag.endswith("}hlinkClick") or el.tag.endswith("}hlinkHover") else el
+        if id(owner) not in self.hold:
+            self.hold[id(owner)] = len(self.hold); self.keep.append(owner)
+        return self.hold[id(owner)]
+
+    @staticmethod
+    def key(k):
+        return "_".join(str(ord(c)) for c in k) or "-"
+
+    def snap(self, part):
+        rels = ",".join("%s~%s" % (self.key(r.rId), self.target(r)) for r in part.rels.values()) or "!"
+        refs = sorted((self.holder(e), self.key(e.get(R_ID))) for e in part._element.iter() if isinstance(e.tag, str) and e.get(R_ID))
+        return rels, ",".join("%d~%s" % r for r in refs) or "!"
+
+
 def run_links(ctx, rng):
     """relationship ids are not reassigned while in use: runs and shapes of one slide linked to URLs from a small
     pool (so relationships are shared), then set / re-point / clear in seeded order"""
@@ -420,6 +457,33 @@ def run_links(ctx, rng):
     other = prs.slides.add_slide(prs.slide_layouts[6])
     links, hist = [], []
     pool = ["http://h.example/%d" % i for i in range(3)]
+    from pptx.opc.constants import RELATIONSHIP_TYPE as RT
+    st = LinkState()
+    if rng.random() < 0.4:
+        # relationships of the part that have nothing to do with links, under ids with gaps (a picture, a chart)
+        slide.shapes.add_picture(io.BytesIO(_png(1)), 0, 0)
+        if rng.random() < 0.5:
+            k0 = [k for k in slide.part.rels if k != "rId1"][0]
+            rel = slide.part.rels._rels.pop(k0)
+            nk = rng.choice(["rId7", "rId4", "pic1"])
+            rel._rId = nk; slide.part.rels._rels[nk] = rel
+            for e in slide.part._element.iter():
+                for a in list(e.attrib):
+                    if e.get(a) == k0 and "relationships" in a:
+                        e.set(a, nk)
+    start = st.snap(slide.part)
+    ops, states = [], []
+
+    def tgt(new):
+        if new is None:
+            return "none"
+        if isinstance(new, tuple):
+            return st.target_of(RT.SLIDE, False, str(other.part.partname) + "#%d" % id(other.part))
+        return st.target_of(RT.HYPERLINK, True, new)
+
+    def holder_of(kind, obj):
+        el = obj._r.get_or_add_rPr() if kind == "run" else obj._element._nvXxPr.cNvPr
+        return st.holder(el)
     for _ in range(rng.randint(4, 14)):
         x = rng.random()
         if links and x < 0.5:
@@ -438,6 +502,7 @@ def run_links(ctx, rng):
                     obj.click_action.hyperlink.address = new
             k[2] = new
             hist.append(("change", kind, new))
+            ops.append("%d:%s" % (holder_of(kind, obj), tgt(new)))
         else:
             tb = slide.shapes.add_textbox(0, 0, 5, 5)
             url = rng.choice(pool)
@@ -446,10 +511,14 @@ def run_links(ctx, rng):
                 run.hyperlink.address = url
                 links.append(["run", run, url])
                 hist.append(("new-run", url))
+                ops.append("%d:%s" % (holder_of("run", run), tgt(url)))
             else:
                 tb.click_action.hyperlink.address = url
                 links.append(["shape", tb, url])
                 hist.append(("new-shape", url))
+                ops.append("%d:%s" % (holder_of("shape", tb), tgt(url)))
+        rels_, refs_ = st.snap(slide.part)
+        states.append("%s %s" % (rels_, refs_))
         for kind, obj, want in links:
             try:
                 if kind == "run":
@@ -466,6 +535,7 @@ def run_links(ctx, rng):
                          {"kind": "links", "hist": [str(h) for h in hist]})
                 return
     ctx.count("link-histories"); ctx.count("link-ops", len(hist))
+    return ("c06.links %s %s %s" % (start[0], start[1], ";".join(ops)), " | ".join(states), {"kind": "links", "hist": [str(h) for h in hist]})
 
 
 # ------------------------------------------------------------------------------------------
@@ -496,7 +566,9 @@ def correspond(ctx):
         run_e2e(ctx, rng, png)
         ctx.case(key=("e2e", ctx.evaluations))
     for _ in range(150 if ctx.quick else 2500):
-        run_links(ctx, rng)
+        t = run_links(ctx, rng)
+        if t:
+            triples.append(t)
         ctx.case(key=("links", ctx.evaluations))
     from harness.props import c02
     c02.slide_numbering(ctx)   # slide part names against the numbering model (slide_parts_sequential)
@@ -504,8 +576,22 @@ def correspond(ctx):
     for l in lines:
         ctx.case(key=l)
     model = ctx.driver.run(lines)
+    def canon_links(m):
+        # model output per step: "rels refs address"; references compared as a set ordered by holder
+        out = []
+        for stp in m.split(" | "):
+            f = stp.split(" ")
+            if len(f) < 2:
+                return m
+            refs = f[1]
+            if refs != "!":
+                refs = ",".join("%d~%s" % x for x in sorted((int(a.split("~")[0]), a.split("~")[1]) for a in refs.split(",")))
+            out.append("%s %s" % (f[0], refs))
+        return " | ".join(out)
     for (line, out, case), m in zip(triples, model):
         ctx.traces += 1
+        if case["kind"] == "links":
+            m = canon_links(m)
         if out != m:
             ctx.disagree(case["kind"], case, out, m)
     for k in ("shapes", "slideid", "rid", "partname"):
